@@ -12,6 +12,7 @@ import (
 
 	"github.com/jech/galene/diskwriter"
 	"github.com/jech/galene/group"
+	"github.com/jech/galene/rtpconn"
 	"github.com/jech/galene/stats"
 
 	"verif/simrt"
@@ -365,4 +366,141 @@ func runLifecycle(c *Ctx, plan any) {
 	c.Nontrivial = c.Run.Switches > 10 && len(w.handledL) > 2
 	c.StateSig = uint64(len(w.handledL))<<8 ^ uint64(len(sessions))
 	c.Sample("lifecycle: clients=%d ops=%d handled=%d whip_sessions=%d autolock=%v autokick=%v", p.Clients, len(p.Ops), len(w.handledL), len(sessions), p.Groups[0].Autolock, p.Groups[0].Autokick)
+}
+
+// ---------------------------------------------------------------------
+// C14, WHIP publishers and the expiry of idle groups.
+//
+// A WHIP publisher is a member like any other: it is announced when its
+// session is created and its departure (DELETE of the session) must be
+// announced too.  The WHIP handler looks the group up, reads the request,
+// builds the client for that group object and only then adds it by name;
+// the periodic group.Update() deletes group objects that have been idle
+// for longer than the history age.  The scenario puts the two next to
+// each other on an idle group and lets the scheduler interleave them.
+//
+// Oracle (C14.member-after-leave): once every session has been deleted by
+// its publisher (DELETE answered 200) and activity has stopped, no group
+// has a WHIP client among its members.
+
+func genWhipExpiryPlan(tp *simrt.Tape, seed uint64, tier string) any {
+	p := &confPlan{Profile: "whip-expiry"}
+	g := confGroup{Name: "g1", Users: stdUsers(), Wildcard: &confUser{Role: "present"}, HistAge: 1}
+	p.Groups = []confGroup{g}
+	p.Clients = 1 + tp.Draw(2)
+	p.Faults = false
+	genConnectAll(tp, p)
+	users := stdUsers()
+	// the group object comes into being and goes idle
+	if tp.Chance(1, 2) {
+		p.Ops = append(p.Ops, confOp{Kind: "addgroup", Group: "g1"})
+	} else {
+		p.Ops = append(p.Ops, confOp{Kind: "join", C: 0, Group: "g1", User: users[0].Name, Pass: users[0].Pass}, confOp{Kind: "settle"}, confOp{Kind: "leave", C: 0})
+	}
+	p.Ops = append(p.Ops, confOp{Kind: "settle"}, confOp{Kind: "sleep", N: []int{1100, 1100, 250, 2500}[tp.Draw(4)]})
+	rounds := 1 + tp.Draw(3)
+	nsess := 0
+	for r := 0; r < rounds; r++ {
+		k := 2 + tp.Draw(3)
+		for i := 0; i < k; i++ {
+			switch tp.Weighted(3, 3, 1, 1) {
+			case 0:
+				p.Ops = append(p.Ops, confOp{Kind: "whip", Group: "g1", V: "whiptok"})
+				nsess++
+			case 1:
+				p.Ops = append(p.Ops, confOp{Kind: "update"})
+			case 2:
+				p.Ops = append(p.Ops, confOp{Kind: "stats"})
+			case 3:
+				p.Ops = append(p.Ops, confOp{Kind: "addgroup", Group: "g1"})
+			}
+		}
+		p.Ops = append(p.Ops, confOp{Kind: "settle"})
+		if tp.Chance(1, 2) {
+			// every publisher leaves, the group goes idle again
+			for i := 0; i < nsess; i++ {
+				p.Ops = append(p.Ops, confOp{Kind: "whipdel", N: i})
+			}
+			p.Ops = append(p.Ops, confOp{Kind: "settle"}, confOp{Kind: "sleep", N: 1100})
+		}
+	}
+	for i := 0; i < nsess; i++ {
+		p.Ops = append(p.Ops, confOp{Kind: "whipdel", N: i})
+	}
+	p.Ops = append(p.Ops, confOp{Kind: "settle"})
+	u := users[tp.Draw(len(users))]
+	p.Ops = append(p.Ops, confOp{Kind: "join", C: p.Clients - 1, Group: "g1", User: u.Name, Pass: u.Pass}, confOp{Kind: "settle"})
+	return p
+}
+
+func init() {
+	Register("C14", &Scenario{
+		Name:   "whip-expiry",
+		Weight: 1,
+		Owns:   []string{"C14"},
+		New:    func() any { return &confPlan{} },
+		Gen:    genWhipExpiryPlan,
+		Cfg: func(tp *simrt.Tape, plan any) simrt.Config {
+			c := swarmCfg(tp, false)
+			c.PCTPoints = 2000
+			return c
+		},
+		Run:    runWhipExpiry,
+		Shrink: shrinkConf,
+	})
+}
+
+func runWhipExpiry(c *Ctx, plan any) {
+	p := plan.(*confPlan)
+	w := newConfWorld(c)
+	w.vfs.Put("/sim/data/var/tokens.jsonl", []byte(`{"token":"whiptok","group":"g1","permissions":["present"],"expires":"2030-01-01T00:00:00Z"}
+`))
+	x := &confExec{w: w, p: p}
+	var sessions []whipSession
+	deleted := map[string]bool{}
+	x.onWhipResource = func(op *confOp, s whipSession, res httpResult) {
+		if op.Kind == "whipdel" && res.Status >= 200 && res.Status < 300 {
+			deleted[s.location] = true
+		}
+	}
+	x.extra = func(op *confOp) bool { return x.doExtra(op, &sessions) }
+	x.run()
+	if c.Run.Failed() {
+		return
+	}
+	w.settle(3 * time.Minute)
+	for _, info := range c.Run.PCs() {
+		if !info.Closed {
+			info.PC.OnICEConnectionStateChange(nil)
+		}
+	}
+	alive := 0
+	for _, s := range sessions {
+		if !deleted[s.location] {
+			alive++
+		}
+	}
+	c.Count("whip.sessions", int64(len(sessions)))
+	c.Count("whip.deleted", int64(len(deleted)))
+	members := 0
+	where := ""
+	var groups map[string]*group.Group
+	simrt.NoYield(func() { groups = group.VerifGroups() })
+	for name, g := range groups {
+		cls := g.GetClients(nil)
+		simrt.Reenter()
+		for _, cl := range cls {
+			if _, ok := cl.(*rtpconn.WhipClient); ok {
+				members++
+				where = name
+			}
+		}
+	}
+	if members > alive {
+		c.Violation("C14.member-after-leave", "%d WHIP sessions were created and %d of them closed by their publishers (DELETE answered 2xx), yet %d WHIP clients are still members (group %s) after activity has stopped: a publisher that left is still listed, nobody was or will be told that it is gone, and it keeps counting towards the group's limits", len(sessions), len(deleted), members, where)
+		return
+	}
+	c.Nontrivial = len(sessions) > 0 && len(deleted) > 0
+	c.StateSig = uint64(len(w.handledL))<<8 ^ uint64(len(sessions))<<4 ^ uint64(len(deleted))
+	c.Sample("whip-expiry: clients=%d ops=%d whip_sessions=%d deleted=%d members_left=%d", p.Clients, len(p.Ops), len(sessions), len(deleted), members)
 }
